@@ -145,30 +145,32 @@ func solveOne(o *Obligation, opts SolveOpts, stats *solveStats, idx int) {
 		}
 		return
 	}
-	v, out, secs := runSolver(ctx, solvers[0], file, opts.Stage1)
-	record(solvers[0].name, v, secs)
-	if v == "unsat" || v == "sat" {
-		o.Result, o.Solver, o.Output = v, solvers[0].name, firstLines(out, 3)
-		if v == "sat" {
-			o.Model = out
+	if o.Smoke {
+		// reachability checks only need "not unsat": one solver, short limit
+		v, out, secs := runSolver(ctx, solvers[0], file, 2*time.Second)
+		record(solvers[0].name, v, secs)
+		o.Result, o.Solver, o.Output = v, solvers[0].name, firstLines(out, 2)
+		if v != "unsat" && v != "sat" {
+			o.Result = "unknown"
 		}
 		return
 	}
-	outs := []string{solvers[0].name + ": " + v}
+	// race: first definitive answer wins
 	rctx, cancel := context.WithCancel(ctx)
 	defer cancel()
 	type ans struct {
 		s, v, out string
 	}
-	ch := make(chan ans, 2)
-	for _, s := range solvers[1:] {
+	ch := make(chan ans, len(solvers))
+	for _, s := range solvers {
 		go func(s solverSpec) {
 			v, out, secs := runSolver(rctx, s, file, opts.Stage2)
 			record(s.name, v, secs)
 			ch <- ans{s.name, v, out}
 		}(s)
 	}
-	for i := 0; i < 2; i++ {
+	var outs []string
+	for range solvers {
 		a := <-ch
 		outs = append(outs, a.s+": "+a.v)
 		if a.v == "unsat" || a.v == "sat" {
@@ -195,7 +197,7 @@ func firstLines(s string, n int) string {
 func solveAll(obls []*Obligation, opts SolveOpts) *solveStats {
 	stats := &solveStats{wins: map[string]int{}, secs: map[string]float64{}}
 	if opts.Workers <= 0 {
-		opts.Workers = 12
+		opts.Workers = 8
 	}
 	var wg sync.WaitGroup
 	ch := make(chan int)
